@@ -213,7 +213,7 @@ def run(facts, tr, rep):
     rep.floor("C12.latency-spawn-sites", len(lat_spawns), 1)
     # ------------------------------------------------------------ DELAY-ORIGIN: the hedge timer is only armed with configured delays
     sleeps = [c for c in g.calls() if c.def_ and c.def_.startswith("tokio::time::sleep::sleep")]
-    rep.floor("C12.sleep-sites", len(sleeps), 2)
+    rep.floor("C12.sleep-sites", len(sleeps) + len([c for c in g.calls() if c.name == "reset" and "tokio::time::sleep::Sleep" in (c.def_ or c.path or "")]), 2)
     for n, c in enumerate(sleeps):
         d = tr.expand(tr.operand(hb, c.args[0], c.loc), upvars=True, params=True)
         ok = bool(calls_in(tr, d, lambda x: x.name == "get_delay"))
@@ -221,6 +221,27 @@ def run(facts, tr, rep):
                "the hedge timer is armed with a delay obtained from config.delay.get_delay(..)" if ok else
                "the hedge timer is armed with %s, not a configured delay: the next attempt can start earlier than the configured delay "
                "after the previous one" % show(peel(d)))
+    resets = [c for c in g.calls() if c.name == "reset" and "tokio::time::sleep::Sleep" in (c.def_ or c.path or "")]
+    for n, c in enumerate(resets):
+        d = tr.expand(tr.operand(hb, c.args[1], c.loc), upvars=True, params=True)
+        ok = bool(calls_in(tr, d, lambda x: x.name == "get_delay")) and bool(calls_in(tr, d, lambda x: x.name == "now"))
+        rep.ob("C12.DELAY-ORIGIN", skey(hb, "reset#%d" % n), ok, c.where(),
+               "the hedge timer is re-armed at now() + a configured delay" if ok else
+               "the hedge timer is re-armed at %s, not at now() + get_delay(..): measured from the previous deadline instead of from the "
+               "start of the previous attempt, a late-started attempt is followed by the next one too early" % show(peel(d))[:80])
+    # ------------------------------------------------------------ AWAITS: the coordinator only waits in the race / on the results
+    naw = 0
+    for a in g.awaits():
+        naw += 1
+        t_ = g.term(a.into_bb)
+        in_select = (t_["span"].get("omacro") or "").startswith("tokio::select")
+        ac = awaited_call(tr, hb, a)
+        is_recv = ac is not None and ac.name in ("recv", "recv_many") and "mpsc" in (ac.def_ or ac.path or "")
+        rep.ob("C12.AWAITS", skey(hb, "await@%s" % ("select" if in_select else (ac.name if ac is not None else "?")) + "#%d" % naw), in_select or is_recv, g.where(a.into_bb),
+               "the coordinating future suspends only in the race between the result channel and the hedge timer, or on the result channel" if in_select or is_recv else
+               "the coordinating future awaits %s outside the race: while it is suspended there it does not read the result channel, so "
+               "a success that is already available is not returned until that await completes (and never, if it does not)" % a.fut_ty["s"][:70])
+    rep.floor("C12.coordinator-awaits", naw, 2)
     # ------------------------------------------------------------ FIRST-SUCCESS
     nok = 0
     for (i, j, node) in ret_assigns(tr, hb):
